@@ -1319,7 +1319,6 @@ func advancesIfWritten(info *types.Info, body *ast.BlockStmt, cw, comma types.Ob
 	return false
 }
 
-
 // arrayComponentProblem: for a named slice type with a generated MarshalJSON,
 // "" when every path writes `[` … `]` (a nil slice encodes as []), otherwise the reason.
 func arrayComponentProblem(p *Program, n *types.Named) string {
